@@ -1419,12 +1419,11 @@ impl World {
                                     let (a, b) = (observe(&m2), observe(&full));
                                     if a.s_value(false) != b.s_value(false) || a.anchors != b.anchors {
                                         self.res.viol("C02", "refresh-from-the-past-differs-from-full-load", b.diff(&a));
-                                        self.res.viol("C14", "refresh-from-the-past-differs-from-full-load", b.diff(&a));
                                     }
                                     self.res.count("c14_refresh_from_past_checked", 1);
                                 }
-                                (Outcome::Panic(p), _) => self.panic_viol("C14", "refresh", &p),
-                                (Outcome::Err(e), _) => self.res.viol("C14", "refresh-from-the-past-failed", e),
+                                (Outcome::Panic(p), _) => self.panic_viol("C02", "refresh", &p),
+                                (Outcome::Err(e), _) => self.res.viol("C02", "refresh-from-the-past-failed", e),
                                 _ => {}
                             }
                         }
@@ -1534,22 +1533,22 @@ impl World {
             Outcome::Ok(()) => {
                 let st = observe(&self.reps[i].m);
                 if st.anchors != maximal {
-                    self.res.viol("C14", "heads-after-arbitrary-travel", format!("{:?} vs maximal chosen {:?}", st.anchors, maximal));
+                    self.beyond("heads-after-arbitrary-travel", format!("{:?} vs maximal chosen {:?}", st.anchors, maximal));
                 }
                 let lo: BTreeSet<String> = st.objects.keys().cloned().collect();
                 let ro: BTreeSet<String> = trees.keys().cloned().collect();
                 if lo != ro {
-                    self.res.viol("C14", "arbitrary-travel-objects-vs-ancestor-blocks", format!("{:?} vs {:?}", lo, ro));
+                    self.beyond("arbitrary-travel-objects-vs-ancestor-blocks", format!("{:?} vs {:?}", lo, ro));
                 } else {
                     for (u, t) in &trees {
                         let (leaves, w) = refmodel::leaves_winner(t);
                         if w.as_deref() != Some(st.objects[u].winner.as_str()) {
-                            self.res.viol("C14", "arbitrary-travel-winner-vs-ancestor-blocks", format!("{}: {} vs {:?}", u, st.objects[u].winner, w));
+                            self.beyond("arbitrary-travel-winner-vs-ancestor-blocks", format!("{}: {} vs {:?}", u, st.objects[u].winner, w));
                         }
                         let conf: BTreeSet<String> = leaves.iter().filter(|l| Some(l.as_str()) != w.as_deref()).cloned().collect();
                         let got: BTreeSet<String> = st.objects[u].conflicting.iter().cloned().collect();
                         if conf != got {
-                            self.res.viol("C14", "arbitrary-travel-conflicts-vs-ancestor-blocks", format!("{}: {:?} vs {:?}", u, got, conf));
+                            self.beyond("arbitrary-travel-conflicts-vs-ancestor-blocks", format!("{}: {:?} vs {:?}", u, got, conf));
                         }
                     }
                 }
@@ -1559,10 +1558,10 @@ impl World {
                     Outcome::Ok(m2) => {
                         let o2 = observe(&m2);
                         if o2.s_value(false) != st.s_value(false) || o2.anchors != st.anchors {
-                            self.res.viol("C14", "arbitrary-travel-new_until-differs", st.diff(&o2));
+                            self.beyond("arbitrary-travel-new_until-differs", st.diff(&o2));
                         }
                     }
-                    o => self.res.viol("C14", "arbitrary-travel-new_until-failed", o.describe()),
+                    o => self.beyond("arbitrary-travel-new_until-failed", o.describe()),
                 }
                 self.res.count("c14_arbitrary_travels_checked", 1);
                 if chosen.len() > maximal.len() {
@@ -1586,12 +1585,28 @@ impl World {
                     o => self.res.viol("C14", "reload-after-travel-failed", o.describe()),
                 }
             }
-            Outcome::Err(e) => self.res.viol("C14", "reload_until-returned-error", format!("arbitrary set: {}", e)),
+            Outcome::Err(e) => {
+                // refusing a set that never was a head set is an answer; the replica must still come back
+                self.beyond("reload_until-refused-arbitrary-set", e);
+                let r2 = {
+                    let m = &self.reps[i].m;
+                    guard(|| m.reload())
+                };
+                let back = observe(&self.reps[i].m);
+                if !r2.is_ok() || back.s_value(false) != latest.s_value(false) || back.anchors != latest.anchors {
+                    self.res.viol("C14", "reload-does-not-return-to-latest", format!("{} ;; {}", r2.describe(), latest.diff(&back)));
+                }
+            }
             Outcome::Panic(p) => {
                 self.panic_viol("C14", "reload_until", &p);
                 self.reps[i].dead = true;
             }
         }
+    }
+
+    fn beyond(&mut self, what: &str, detail: String) {
+        self.res.count("c14_beyond_quantifier_disagreements", 1);
+        self.t(format!("beyond C14's quantifier: {} {}", what, trunc(&detail, 200)));
     }
 
     fn do_resolve(&mut self, i: usize) {
